@@ -101,7 +101,8 @@ pub fn run(ctx: &Ctx) -> Report {
                                 key,
                                 variant: v,
                                 which,
-                                replay: json!({"source": p.src, "function": f.name, "arguments": argw, "tracing": sname, "program": which}),
+                                // the source is regenerated from (seed, module) when a replay is needed
+                                replay: json!({"seed": seed, "module": i, "function": f.name, "arguments": argw, "tracing": sname, "program": which}),
                                 text,
                             });
                         }
@@ -146,10 +147,14 @@ pub fn run(ctx: &Ctx) -> Report {
                     rep.count("structural-in-pre-optimisation-typed-list (C02 finding)");
                     continue;
                 }
+                let mut replay = o.replay.clone();
+                if let (Some(sd), Some(m)) = (replay["seed"].as_u64(), replay["module"].as_u64()) {
+                    replay["source"] = json!(comp::prepare(sd, m, None).src);
+                }
                 rep.fail(
                     &format!("{}:structural-error:{}", o.key, o.variant),
                     "a type-checked program fails with a structural machine error",
-                    o.replay.clone(),
+                    replay,
                     json!({"error": o.variant, "text": o.text, "class": class}),
                 )
             }
